@@ -472,3 +472,9 @@ impl<'a> VacantEntry<'a> {
         Key { index, stream_id }
     }
 }
+
+#[cfg(feature = "verif")]
+#[allow(missing_docs, dead_code, unused_imports)]
+pub(crate) mod verif_h {
+    include!(concat!(env!("H2_VERIF_DIR"), "/harness/proto/streams/store.rs"));
+}
